@@ -10,6 +10,12 @@ import FV.Proofs.Strop.Extend
 import FV.Proofs.Strop.Complete
 import FV.Proofs.Strop.Area
 import FV.Proofs.Strop.Redundant
+import FV.Proofs.Strop.Pip
+import FV.Proofs.Strop.Coords
+import FV.Proofs.Strop.Boundary
+import FV.Proofs.Strop.Shoelace
+import FV.Proofs.Strop.Classes
+import FV.Proofs.Strop.Histogram
 /-
   Helper lemmas for property C15 (single-trunk orthogon decomposition), split by topic:
     Basic     loops, sums, `any`, run lengths
@@ -24,4 +30,10 @@ import FV.Proofs.Strop.Redundant
     Complete  a maximal valid trunk is a potential trunk (rows, columns by transposition, corners)
     Area      areas through coordinate lists (Mathlib big operators)
     Redundant the cell-count test never rejects a potential trunk
+    Pip       `is_point_inside_polygon` = parity of the crossing edges; start vertex / orientation do not matter
+    Coords    `sorted(set(…))`, the coordinate lists and the matrix as functions of the point set
+    Boundary  a vertex list walking the boundary of the 1-cells of `S`: the matrix is `S`
+    Shoelace  … and the shoelace sum is ±2 × the area of the 1-cells (discrete Green formula)
+    Classes   `tracesGrid` proved: closure under start vertex / orientation; axis-parallel rectangles
+    Histogram `tracesGrid` proved for histogram (staircase) polygons: columns of arbitrary heights on a base line
 -/
